@@ -323,6 +323,14 @@ def run(pid, tier):
                           msg, CLAUSE_TEXT[clause], h.kind, h.hid, i, h.ops[i],
                           "\n".join("%s    => %s" % (a, b) for a, b in zip(ops, o)),
                           f2[0][2] if f2 else msg))
+    # the callbacks are also the change log of what rtr_sync does to the router-key table (apply, undo, purge, atomic reload)
+    import rtrcheck
+    sync_found = rtrcheck.cblog_scan(rep, "C10", tier)
+    if sync_found is None:
+        vlib.proof_failure(rep, "protocol harness build failed (callback log during synchronisation)")
+        sync_found = []
+    for c, msg in sync_found[:2]:
+        rep.violation("oracle_sync", "# property C10 fails on the implementation: %s\n# mutation: %s\n%s\n" % (msg, c.meta.get("mut"), "\n".join(c.ops)))
     if divergences and not oracle_fails and not crashes:
         h, d, a, b = divergences[0]
         rep.build_log = "history %s/%s line %d (%s)\n impl : %s\n model: %s\nops:\n%s" % (
